@@ -223,10 +223,15 @@ impl Check for C02 {
             ("render".into(), 120_000 * k),
             ("render-mut".into(), 40_000 * k),
             ("corpus-mut".into(), 40_000 * k),
+            ("marker-key".into(), docs::marker_docs().len() as u64),
         ]
     }
     fn run(&mut self, ctx: &mut Ctx, workload: &str, index: u64, rng: &mut Rng) {
         match workload {
+            "marker-key" => {
+                let d = &docs::marker_docs()[index as usize];
+                self.judge(ctx, d, None);
+            }
             "corpus" => {
                 let f = &docs::corpus()[index as usize];
                 if let Ok(t) = std::str::from_utf8(&f.bytes) {
